@@ -326,7 +326,9 @@ def run(pid, tier, seed, replay=None):
         ck.evaluations += s["realised"] + s["divergent"]
         ck.nontrivial += s["nontrivial"]
         ck.extra.setdefault("unrealised_orders", 0)
-        ck.extra["unrealised_orders"] += s["unrealised"]
+        ck.extra["unrealised_orders"] += s["unrealised"]     # model branches (pop order / cancel choice) the code did not take
+        ck.extra.setdefault("command_sequences_without_realised_branch", 0)
+        ck.extra["command_sequences_without_realised_branch"] += s.get("orphan_sequences", 0)
         for smp in s["samples"][:1]:
             ck.sample({"kind": "tlc behaviour replayed on the real ring", "config": name, **smp})
         for d in s["divergences"][:4]:        # the first few are judged by TLC; the rest are counted
